@@ -119,6 +119,11 @@ class Evaluator:
             v = self.ev(e.value, env)
             if isinstance(v, Obj) and e.attr in v.attrs:
                 return v.attrs[e.attr]
+            if isinstance(v, Obj) and e.attr in v.attrs.get("__methods__", {}):
+                m = v.attrs["__methods__"][e.attr]
+                if any(ast.unparse(d) == "property" for d in m.decorator_list):
+                    return self.run_function(m, [v], {}, {})
+                return ("boundmethod", v, m)
             if isinstance(v, Obj) and v.tag == "Class" and v.attrs.get("name") == "Tensor" and e.attr == "from_lol":
                 return ("builtin", "Tensor.from_lol")
             if isinstance(v, str) and e.attr == "join":
@@ -389,12 +394,15 @@ class Evaluator:
                 return args[0] if isinstance(args[0], Obj) else float(args[0])
             if name == "isinstance":
                 v, c = args
-                cname = c.attrs.get("name") if isinstance(c, Obj) else None
-                if cname == "Tensor":
-                    return isinstance(v, Obj) and v.tag == "Tensor"
-                if cname == "Real":
-                    return isinstance(v, Obj) and v.tag == "Real"
-                raise Uninterpretable(f"isinstance {ast.unparse(e)}")
+                classes = c if isinstance(c, tuple) else (c,)
+                res = False
+                for c_ in classes:
+                    cname = c_.attrs.get("name") if isinstance(c_, Obj) else None
+                    if cname is None:
+                        raise Uninterpretable(f"isinstance {ast.unparse(e)}")
+                    if isinstance(v, Obj) and (v.tag == cname or cname in v.attrs.get("__bases__", ())):
+                        res = True
+                return res
             if name in ("evaluate_tensora", "evaluate", "evaluate_cffi", "allocate_taco_structure", "take_ownership_of_arrays"):
                 return Call(name, args, kwargs)
             if name == "Tensor":
@@ -403,6 +411,8 @@ class Evaluator:
                 return Obj("Exception", name=name)
             raise Uninterpretable(f"call of {name}")
         f = self.ev(fn, env)
+        if isinstance(f, tuple) and f[0] == "boundmethod":
+            return self.run_function(f[2], [f[1], *args], kwargs, {})
         if isinstance(f, tuple) and f[0] == "strjoin":
             items = args[0]
             if not all(isinstance(x, str) for x in items):
